@@ -97,3 +97,176 @@ pub proof fn lemma_empty_wf()
     ensures cat_wf(Map::<u32, Name>::empty(), Map::<Name, u32>::empty()),
 {
 }
+
+// ---- LINK harnesses (link pass 2): the contracts other units ASSUME for functions proved here, proved from the real ones -------
+// Each harness has the assuming unit's stub signature, its `requires` / `ensures` copied VERBATIM from that unit's prelude.rs, and a
+// body that is ONE call of the real extracted function: Verus proves "real contract ==> assumed contract" on every run of this
+// unit. A later edit of a stub has to be mirrored here (and vice versa). The assuming units keep fewer fields of System / Stream /
+// Topic than this unit: their record equalities are the projections of the ones proved here.
+
+// ---- units/catalogue_more/prelude.rs (same vocabulary: denotes / stream_of / topic_of / stream_wf / stream_only_catalogue / ..) ----
+impl System {
+    // copied from units/catalogue_more/prelude.rs, stub `System::get_stream`
+    // label: C06.link.catalogue_more.get_stream
+    pub fn link_catalogue_more_get_stream(&self, identifier: &Identifier) -> (r: Result<&Stream, IggyError>)
+        ensures match r {
+            Ok(s) => stream_of(self, identifier) is Some && *s == self.streams@[stream_of(self, identifier)->0],
+            Err(_) => stream_of(self, identifier) is None },
+    { self.get_stream(identifier) }
+    // copied from units/catalogue_more/prelude.rs, stub `System::get_stream_mut`
+    // label: C06.link.catalogue_more.get_stream_mut
+    pub fn link_catalogue_more_get_stream_mut(&mut self, identifier: &Identifier) -> (r: Result<&mut Stream, IggyError>)
+        ensures match r {
+            Ok(s) => stream_of(old(self), identifier) is Some && *s == old(self).streams@[stream_of(old(self), identifier)->0]
+                && final(self).streams@ == old(self).streams@.insert(stream_of(old(self), identifier)->0, *final(s)) && system_only_streams(old(self), final(self)),
+            Err(_) => stream_of(old(self), identifier) is None && system_unchanged(old(self), final(self)) },
+    { self.get_stream_mut(identifier) }
+}
+impl Stream {
+    // copied from units/catalogue_more/prelude.rs, stub `Stream::get_topic`
+    // label: C06.link.catalogue_more.get_topic
+    pub fn link_catalogue_more_get_topic(&self, identifier: &Identifier) -> (r: Result<&Topic, IggyError>)
+        ensures match r {
+            Ok(t) => topic_of(self, identifier) is Some && *t == self.topics@[topic_of(self, identifier)->0],
+            Err(_) => topic_of(self, identifier) is None },
+    { self.get_topic(identifier) }
+    // copied from units/catalogue_more/prelude.rs, stub `Stream::remove_topic`
+    // label: C06.link.catalogue_more.remove_topic
+    pub fn link_catalogue_more_remove_topic(&mut self, identifier: &Identifier) -> (r: Result<Topic, IggyError>)
+        requires stream_wf(old(self)),
+        ensures
+            r matches Ok(t) ==> topic_of(old(self), identifier) == Some(t.topic_id) && t == old(self).topics@[t.topic_id]
+                && final(self).topics@ == old(self).topics@.remove(t.topic_id) && final(self).topics_ids@ == old(self).topics_ids@.remove(t.name)
+                && stream_only_catalogue(old(self), final(self)),
+            r is Err ==> topic_of(old(self), identifier) is None && stream_unchanged(old(self), final(self)),
+    { self.remove_topic(identifier) }
+}
+
+// ---- units/journal_sinks/prelude.rs (same vocabulary; its get_stream_mut stub cites unit alloc_runtime's shape, whose Err arm keeps
+// the `streams_ids` OBJECT, not only its view: proved here by [C06.shape.stream.get_mut.frame]) ----
+impl System {
+    // copied from units/journal_sinks/prelude.rs, stub `System::get_stream`
+    // label: C05.link.journal_sinks.get_stream
+    pub fn link_journal_sinks_get_stream(&self, identifier: &Identifier) -> (r: Result<&Stream, IggyError>)
+        ensures match r {
+            Ok(s) => stream_of(self, identifier) is Some && *s == self.streams@[stream_of(self, identifier)->0],
+            Err(_) => stream_of(self, identifier) is None },
+    { self.get_stream(identifier) }
+    // copied from units/journal_sinks/prelude.rs, stub `System::get_stream_mut`
+    // label: C05.link.journal_sinks.get_stream_mut
+    pub fn link_journal_sinks_get_stream_mut(&mut self, identifier: &Identifier) -> (r: Result<&mut Stream, IggyError>)
+        ensures match r {
+            Ok(s) => stream_of(old(self), identifier) is Some && *s == old(self).streams@[stream_of(old(self), identifier)->0]
+                && final(self).streams@ == old(self).streams@.insert(stream_of(old(self), identifier)->0, *final(s)) && system_only_streams(old(self), final(self)),
+            Err(_) => stream_of(old(self), identifier) is None && final(self).streams@ =~= old(self).streams@ && system_only_streams(old(self), final(self)) },
+    { self.get_stream_mut(identifier) }
+}
+impl Stream {
+    // copied from units/journal_sinks/prelude.rs, stub `Stream::get_topic`
+    // label: C05.link.journal_sinks.get_topic
+    pub fn link_journal_sinks_get_topic(&self, identifier: &Identifier) -> (r: Result<&Topic, IggyError>)
+        ensures match r {
+            Ok(t) => topic_of(self, identifier) is Some && *t == self.topics@[topic_of(self, identifier)->0],
+            Err(_) => topic_of(self, identifier) is None },
+    { self.get_topic(identifier) }
+    // copied from units/journal_sinks/prelude.rs, stub `Stream::update_topic`
+    // label: C05.link.journal_sinks.update_topic
+    pub fn link_journal_sinks_update_topic(&mut self, id: &Identifier, name: &Name, message_expiry: IggyExpiry, compression_algorithm: CompressionAlgorithm,
+        max_topic_size: MaxTopicSize, replication_factor: u8) -> (r: Result<(), IggyError>)
+        requires stream_wf(old(self)),
+        ensures
+            r is Err ==> final(self).topics@ =~= old(self).topics@ && final(self).topics_ids@ =~= old(self).topics_ids@ && stream_only_catalogue(old(self), final(self)),
+            r is Ok ==> (topic_of(old(self), id) matches Some(tid)
+                && final(self).topics_ids@ =~= old(self).topics_ids@.remove(old(self).topics@[tid].name).insert(*name, tid)
+                && map_frame_except(old(self).topics@, final(self).topics@, tid)
+                && final(self).topics@[tid].name == *name && final(self).topics@[tid].topic_id == tid
+                && stream_only_catalogue(old(self), final(self))),
+            stream_wf(final(self)),
+    { self.update_topic(id, name, message_expiry, compression_algorithm, max_topic_size, replication_factor) }
+}
+
+// ---- units/consumer_group/prelude.rs: there `Identifier` and `Stream` are OPAQUE stand-ins and `group_of(t: Topic, id: Identifier)`,
+// `stream_of(s: System, id: Identifier)`, `stream_topic(st: Stream, id: Identifier)` are UNINTERPRETED ("resolution by id / by name is
+// C06's subject"). The link gives them their INTERPRETATION over the real records (a projection): the three functions below, named
+// cg_* because this unit's own group_of / stream_of take references; the copied clauses are verbatim up to that renaming.
+pub open spec fn cg_group_of(t: Topic, id: Identifier) -> Option<u32> { group_of(&t, &id) }
+pub open spec fn cg_stream_of(s: System, id: Identifier) -> Option<u32> { stream_of(&s, &id) }
+pub open spec fn cg_stream_topic(st: Stream, id: Identifier) -> Topic { st.topics@[topic_of(&st, &id)->0] }
+impl Topic {
+    // copied from units/consumer_group/prelude.rs, stub `Topic::get_consumer_group`: its READ half (the clauses over old(self)). The stub
+    // hands the group out as `&mut` from `&mut self` (R6 promotion of the `&RwLock<ConsumerGroup>` access path); the write-back half
+    // (`final(self).consumer_groups@ == old(self).consumer_groups@.insert(.., *final(g))`, nothing else of the topic changes) is the
+    // HashMap::get_mut schema of that promotion and cannot be stated on the real `&self` function: still assumed there.
+    // `requires ident_valid(identifier)`: ADDED by the link (the real function `unwrap()`s `get_u32_value()`): mirrored in the stub.
+    // label: C06.link.consumer_group.get_consumer_group
+    pub fn link_consumer_group_get_consumer_group(&self, identifier: &Identifier) -> (r: Result<&ConsumerGroup, IggyError>)
+        requires ident_valid(identifier),
+        ensures
+            match r {
+                Ok(g) => {
+                    &&& cg_group_of(*self, *identifier) is Some
+                    &&& self.consumer_groups@.contains_key(cg_group_of(*self, *identifier)->0)
+                    &&& *g == self.consumer_groups@[cg_group_of(*self, *identifier)->0]
+                },
+                Err(_) => cg_group_of(*self, *identifier) is None,
+            },
+    { self.get_consumer_group(identifier) }
+}
+impl Stream {
+    // copied from units/consumer_group/prelude.rs, stub `Stream::get_topic_mut`
+    // label: C06.link.consumer_group.get_topic_mut
+    pub fn link_consumer_group_get_topic_mut<'a>(&'a mut self, identifier: &Identifier) -> (r: Result<&'a mut Topic, IggyError>)
+        ensures
+            match r {
+                Ok(t) => *t == cg_stream_topic(*old(self), *identifier) && cg_stream_topic(*final(self), *identifier) == *final(t),
+                Err(_) => *final(self) == *old(self),
+            },
+    { self.get_topic_mut(identifier) }
+}
+impl System {
+    // copied from units/consumer_group/prelude.rs, stub `System::get_stream_mut` (its System keeps permissioner / streams / metrics)
+    // label: C06.link.consumer_group.get_stream_mut
+    pub fn link_consumer_group_get_stream_mut<'a>(&'a mut self, identifier: &Identifier) -> (r: Result<&'a mut Stream, IggyError>)
+        ensures
+            final(self).permissioner == old(self).permissioner && final(self).metrics == old(self).metrics,
+            forall|id: Identifier| cg_stream_of(*final(self), id) == cg_stream_of(*old(self), id),
+            match r {
+                Ok(st) => {
+                    &&& cg_stream_of(*old(self), *identifier) is Some
+                    &&& old(self).streams@.contains_key(cg_stream_of(*old(self), *identifier)->0)
+                    &&& *st == old(self).streams@[cg_stream_of(*old(self), *identifier)->0]
+                    &&& final(self).streams@ == old(self).streams@.insert(cg_stream_of(*old(self), *identifier)->0, *final(st))
+                },
+                Err(_) => final(self).streams@ == old(self).streams@,
+            },
+    { self.get_stream_mut(identifier) }
+}
+
+// ---- units/consumer_offsets/prelude.rs: `topic_group(t, id)` is UNINTERPRETED there ("lookup of a group by numeric id or by name — a
+// function of the topic"); the link gives it its INTERPRETATION: the group record that the identifier denotes in the topic's catalogue
+pub open spec fn topic_group(t: &Topic, id: Identifier) -> Option<ConsumerGroup> {
+    match group_of(t, &id) { Some(k) => Some(t.consumer_groups@[k]), None => None }
+}
+impl Topic {
+    // copied from units/consumer_offsets/prelude.rs, stub `Topic::get_consumer_group`
+    // `requires`: ADDED by the link (the real function `unwrap()`s `get_u32_value()`): mirrored in the stub (there written out:
+    // consumer_offsets has no `ident_valid`)
+    // label: C06.link.consumer_offsets.get_consumer_group
+    pub fn link_consumer_offsets_get_consumer_group(&self, identifier: &Identifier) -> (r: Result<&ConsumerGroup, IggyError>)
+        requires identifier.kind == IdKind::Numeric ==> identifier.length == 4,
+        ensures match r { Ok(g) => topic_group(self, *identifier) == Some(*g), Err(_) => topic_group(self, *identifier) is None },
+    { self.get_consumer_group(identifier) }
+}
+
+// ---- units/authn_gate/prelude.rs (same denotes / stream_of; `stream_at` repeated word for word) ----
+// (vocabulary of units/authn_gate/prelude.rs used by the copied clauses)
+pub open spec fn stream_at(s: &System, sid: &Identifier) -> Option<Stream> {
+    match stream_of(s, sid) { Some(k) => Some(s.streams@[k]), None => None }
+}
+impl System {
+    // copied from units/authn_gate/prelude.rs, stub `System::get_stream_mut`
+    // label: C06.link.authn_gate.get_stream_mut
+    pub fn link_authn_gate_get_stream_mut(&mut self, identifier: &Identifier) -> (r: Result<&mut Stream, IggyError>)
+        ensures r matches Ok(s) ==> stream_at(old(self), identifier) == Some(*s),
+    { self.get_stream_mut(identifier) }
+}
